@@ -1742,3 +1742,7 @@ impl From<&NativeScript> for Ed25519KeyHashes {
         }
     }
 }
+
+#[cfg(kani)]
+#[path = "/verif/kani/lib_level.rs"]
+mod verif_kani_lib_level;
